@@ -198,6 +198,18 @@ pub fn check(e: &Engine) {
 		&super::realfs::strategy,
 		&super::realfs::run,
 	);
+	e.explore(
+		"real-sources",
+		LegOpts::realtime(
+			e.tier.pick(64, 1_500),
+			16,
+			"a separate probe process (library Watchexec with the real signal and keyboard sources) receives 1-8 generated steps: OS signals HUP/INT/QUIT/TERM/USR1/USR2 (the same kind never twice within 300 ms: standard signals do not queue), bytes on stdin, stdin closed; throttle 0/20/120 ms, keyboard source on or off, a filter rejecting a generated subset of signal kinds: every sent signal appears in exactly one handler event unless the (recording) filter returned a rejection for it, then in none, closing stdin gives exactly one keyboard-EOF event iff the keyboard source is on, typed bytes give none, no empty batch, the probe stays alive; non-trivial = >=2 signals or an EOF",
+		),
+		&super::realsrc::strategy,
+		&super::realsrc::run,
+	);
+	e.require_label("real-sources", "signals", 0.7);
+	e.require_label("real-sources", "keyboard-eof", 0.1);
 	e.require_label("ledger", "2+batches", 0.3);
 	e.require_label("ledger", "sent-while-handler-running", 0.1);
 }
